@@ -45,7 +45,20 @@ RULE = ('cases = acyclic rule sets (1-4 rules, rule: references to lower rules) 
         '(attributes cannot be set) or slotted take part as leaves and as roots; oracle: only the documented exceptions, a root leaf that '
         'certainly cannot be evaluated denies (plain dict credentials), and a plain decision for the object equals the plain decision for '
         'the same rule enforced by name with equal inputs (names registered with scope_types excepted); authorize() is called by name only '
-        '(registered and unregistered names): exception surface.')
+        '(registered and unregistered names): exception surface. '
+        'FI = rule sets in which one or two list-of-lists rules hold, INSIDE an inner list, an element of any JSON type that is not a '
+        'check text (null, true / false, numbers, the empty or a colon-less string, lists nested one, two, three levels too deep, '
+        'empty lists, mappings) in the only / first / middle / last position beside valid entries, beside well-formed text and list '
+        'rules and rules that refer to the odd one; given as the policy file or a policy_dirs file (JSON, YAML, YAML lines), as a '
+        'dict (Rules.from_dict) or a text (Rules.load); the odd name and others registered in code or not; EVERY rule of the set '
+        'and an unknown name is enforced, do_raise off and on: only the documented exceptions, and a well-formed rule that does '
+        'not refer to the odd one decides as in the same set without the odd rule. '
+        'FK = YAML policy files (main file or policy_dirs file, raw text) in which one to three rule NAMES are unquoted keys '
+        'that YAML 1.1 reads as booleans, null, integers, floats, dates, timestamps or bytes, beside normally named rules; rule '
+        'texts are ordinary: clean, referencing an undefined rule, or referencing a cycle, so that the load-time reports often '
+        'concern an odd name and a normal one together; the normally named rules that reach no cycle (and an unknown name, '
+        'registered defaults) are enforced by name, twice, do_raise off and on, also after the file was touched: only the '
+        'documented exceptions (no decision is demanded).')
 ASSUMPTIONS =['roles in credentials are a list of strings (the statement\'s precondition)',
                'http:/https: kinds are excluded here: their transport errors are C16\'s subject',
                '% appears only inside well-formed %(name)s placeholders']
@@ -53,7 +66,7 @@ LEVEL_TEXT = ('Seeded hostile fuzzing with an exception-surface oracle; the inpu
               'fragment-based generator plus a curated alphabet is the appropriate level (no finite enumeration exists).')
 LEVEL_NOTE = 'trusted: the list of documented exceptions taken from the statement; the curated "certainly unevaluable" list'
 PLAN = {'quick': dict(shards=4, wall=120), 'thorough': dict(shards=16, wall=400)}
-MIN = {'check_object_enforce_calls': 4000, 'check_object_leaf_root_calls': 1500, 'check_object_unhashable_root_calls': 150,
+MIN = {'inner_list_element_enforce_calls': 1000, 'inner_list_element_odd_rule_calls': 150, 'inner_list_element_vs_alone_comparisons': 500, 'nontext_name_enforce_calls': 1000, 'nontext_name_shared_warning_cases': 40, 'check_object_enforce_calls': 4000, 'check_object_leaf_root_calls': 1500, 'check_object_unhashable_root_calls': 150,
        'check_object_vs_name_comparisons': 2000, 'empty_segment_path_decisions': 1000, 'container_enforce_calls': 3000, 'overlapping_evaluations': 200, 'deleted_reference_decisions': 100, 'file_override_enforce_calls': 100, 'same_target_comparisons': 500, 'evaluations': 5000, 'enforce_calls': 10000, 'hostile_leaves': 5000, 'unevaluable_leaf_rules': 500}
 ANCHORS = ['oslo_policy._checks:GenericCheck.__call__', 'oslo_policy._checks:GenericCheck._find_in_dict',
            'oslo_policy._checks:RoleCheck.__call__', 'oslo_policy.policy:Enforcer.enforce']
@@ -440,6 +453,307 @@ def check_file_override_of_registered(ctx, real, case):
         tree.cleanup()
 
 
+# stratum FI: list-of-lists rules whose INNER lists hold elements that are not text
+INNER_CASES = {'quick': 320, 'thorough': 8000}
+INNER_ODD = [None, True, False, 0, 5, -1, 1.5, 10 ** 30, '', ' ', 'nocolon', ['role:r'], ['role:admin', 'role:r'], [['role:r']],
+             [[['role:admin']]], [], [[]], [None], {'role': 'r'}, {}, {'a': [1]}]
+INNER_VALID = ['role:r', 'role:admin', '@', '!', 'rule:w.adm', 'rule:ghost', 'u:%(t)s', 'role:%(t)s', 'x.y:1']
+INNER_WELL_FORMED = collections.OrderedDict([
+    ('w.r', [['role:r']]), ('w.txt', 'role:r or role:admin'), ('w.list', [['role:r', 'role:admin'], ['@']]),
+    ('w.ref2', 'rule:w.adm and not role:zz'), ('w.gen', 'u:%(t)s or role:r'), ('w.listref', [['rule:w.adm'], ['role:r']]),
+    ('w.false', [['!']]), ('w.empty', []), ('w.ghost', [['rule:ghost', 'role:r']])])
+INNER_ROUTES = ['file', 'file', 'dir-file', 'dict', 'load']
+INNER_FORMATS = ['json', 'yaml', 'yaml-lines']
+DENIALS = ('PolicyNotAuthorized',)
+
+
+def gen_odd_inner_list(rnd):
+    """An inner list (a conjunction of the list-of-lists spelling) with an element of some JSON type that is not a check
+    text, in the only / first / middle / last position, beside valid entries."""
+    odd = copy.deepcopy(rnd.choice(INNER_ODD))
+    pos = rnd.choice(['only', 'first', 'middle', 'last'])
+    valid = lambda: [rnd.choice(INNER_VALID) for _ in range(rnd.randint(1, 2))]
+    if pos == 'only':
+        inner = [odd]
+    elif pos == 'first':
+        inner = [odd] + valid()
+    elif pos == 'middle':
+        inner = valid() + [odd] + valid()
+    else:
+        inner = valid() + [odd]
+    if rnd.random() < 0.15:
+        inner.insert(rnd.randrange(len(inner) + 1), copy.deepcopy(rnd.choice(INNER_ODD)))
+    return inner, pos
+
+
+def gen_inner_list_case(rnd):
+    """A rule set (policy file in JSON / YAML, a directory file, a dict, a text for Rules.load) in which one or two rules are
+    list-of-lists rules with a non-text element inside an inner list; around them well-formed rules."""
+    odd_rules = collections.OrderedDict()
+    positions = []
+    for name in ['x.odd'] + (['x.odd2'] if rnd.random() < 0.25 else []):
+        inner, pos = gen_odd_inner_list(rnd)
+        positions.append(pos)
+        valid = lambda: [rnd.choice(INNER_VALID) for _ in range(rnd.randint(1, 2))]
+        shape = rnd.randrange(5)
+        if shape == 0:
+            value = [inner]
+        elif shape == 1:
+            value = [inner, valid()]
+        elif shape == 2:
+            value = [valid(), inner]
+        elif shape == 3:
+            value = [rnd.choice(INNER_VALID), inner]
+        else:
+            value = [valid(), inner, valid()]
+        odd_rules[name] = value
+    well = collections.OrderedDict()
+    well['w.adm'] = rnd.choice(['role:admin', [['role:admin']]])
+    for name in rnd.sample(list(INNER_WELL_FORMED), rnd.randint(1, 3)):
+        well[name] = copy.deepcopy(INNER_WELL_FORMED[name])
+    refs = {}
+    if rnd.random() < 0.5:
+        refs['w.refodd'] = rnd.choice(['rule:x.odd or role:zz', 'not rule:x.odd', [['rule:x.odd', 'role:r']], 'rule:x.odd'])
+    pairs = list(odd_rules.items()) + list(well.items()) + list(refs.items())
+    rnd.shuffle(pairs)
+    registered = {}
+    for name in odd_rules:
+        if rnd.random() < 0.5:
+            registered[name] = rnd.choice(['role:admin', 'role:r', '!', 'rule:w.adm'])
+    if rnd.random() < 0.3:
+        registered['w.adm'] = rnd.choice(['role:admin', 'role:zz'])
+    creds = {'roles': rnd.choice([[], ['r'], ['admin', 'r'], ['admin']])} if rnd.random() < 0.5 else gen_creds(rnd)
+    target = {} if rnd.random() < 0.5 else {'t': rnd.choice(['x', 'r', 1, None, 'admin'])}
+    return dict(kind='FI', via=rnd.choice(INNER_ROUTES), fmt=rnd.choice(INNER_FORMATS), rules=[list(p) for p in pairs],
+                odd_names=sorted(odd_rules), ref_names=sorted(refs), positions=positions, registered=registered, creds=creds,
+                target=target, debug=rnd.random() < 0.1)
+
+
+def enforce_outcome(enf, name, target, creds, do_raise):
+    try:
+        return ('decision', bool(enf.enforce(name, copy.deepcopy(target), copy.deepcopy(creds), do_raise=do_raise)))
+    except Exception as e:
+        return ('raised', type(e).__name__, str(e)[:160])
+
+
+def check_inner_list_elements(ctx, real, case):
+    """A list-of-lists rule whose inner list holds something that is not a check text (null, booleans, numbers, lists nested
+    too deep, mappings, the empty string) - in a policy file (main file or a directory file; JSON or YAML), overriding a
+    registered policy or not, or handed over as a dict / a text: every rule of the set, the well-formed ones included, is
+    enforced: only the documented exceptions may leave, and a well-formed rule that does not refer to the odd one decides as
+    it does in the same set without the odd rule."""
+    import contextlib
+    policy, _ = real
+    from pv.gen import files
+    pairs = [(n, v) for n, v in case['rules']]
+    skip_alone = set(case['odd_names']) | set(case['ref_names'])
+    alone_pairs = [(n, v) for n, v in pairs if n not in skip_alone]
+    trees = []
+    ctx.case(['inner-list-elements', case['rules'], case['via'], case['fmt'], case['registered'], case['creds'], case['target']],
+             nontrivial=True, stratum='FI')
+
+    via = case['via']
+    try:
+        # the harness's own rendering of the files / the text (not the library's doing)
+        texts = {}
+        for tag, these in (('odd', pairs), ('alone', alone_pairs)):
+            if via == 'dir-file':
+                texts[tag] = {'policy.yaml': files.render(dict((n, v) for n, v in these if n not in case['odd_names']), case['fmt'])}
+                if tag == 'odd':
+                    texts[tag]['d1/extra.yaml'] = files.render(dict((n, v) for n, v in these if n in case['odd_names']), case['fmt'])
+            else:
+                texts[tag] = {'policy.yaml': files.render(dict(these), case['fmt'])}
+    except Exception as e:
+        ctx.unconstrained('inner-list-case-not-rendered-' + type(e).__name__)
+        return
+
+    def build(these, tag):
+        if via in ('file', 'dir-file'):
+            tree = files.Tree(dirs=('d1',) if via == 'dir-file' else ())
+            trees.append(tree)
+            for rel, text in texts[tag].items():
+                tree.write_text(rel, text)
+            enf = policy.Enforcer(tree.conf())
+        else:
+            enf = policy.Enforcer(env.fresh_conf(), use_conf=False)
+            if via == 'dict':
+                rules = policy.Rules.from_dict(dict(these))
+            else:
+                rules = policy.Rules.load(texts[tag]['policy.yaml'])
+            enf.set_rules(rules)
+        for name in sorted(case['registered']):
+            enf.register_default(policy.RuleDefault(name, case['registered'][name]))
+        return enf
+
+    def describe(**more):
+        d = {'rules': dict(pairs), 'route': case['via'], 'format': case['fmt'], 'texts': texts['odd'], 'odd_rules': case['odd_names'],
+             'registered_defaults': case['registered'], 'creds': case['creds'], 'target': case['target']}
+        d.update(more)
+        return d
+
+    try:
+        try:
+            enf = build(pairs, 'odd')
+        except Exception as e:
+            if case['via'] in ('dict', 'load'):
+                ctx.violation('load-raises', case, describe(observed=type(e).__name__ + ': ' + str(e)[:100]))
+            else:
+                ctx.unconstrained('inner-list-enforcer-not-built-' + type(e).__name__)
+            return
+        try:
+            alone = build(alone_pairs, 'alone')
+        except Exception as e:
+            ctx.unconstrained('inner-list-reference-enforcer-not-built-' + type(e).__name__)
+            alone = None
+        with (env.debug_logging() if case.get('debug') else contextlib.nullcontext()):
+            for name in [n for n, _ in pairs] + ['w.not-there']:
+                for do_raise in (False, True):
+                    o = enforce_outcome(enf, name, case['target'], case['creds'], do_raise)
+                    ctx.count('inner_list_element_enforce_calls')
+                    ctx.count('inner_list_element_enforce_calls.' + case['via'])
+                    if name in case['odd_names']:
+                        ctx.count('inner_list_element_odd_rule_calls')
+                        ctx.observe('inner_list_odd_rule_outcomes', o[1] if o[0] == 'raised' else ('allow' if o[1] else 'deny'))
+                    if o[0] == 'raised' and o[1] not in DOCUMENTED:
+                        ctx.violation('undocumented-exception-' + o[1], case,
+                                      describe(enforced=name, do_raise=do_raise, observed='%s: %s' % o[1:],
+                                               enforced_rule_is='the odd list rule' if name in case['odd_names'] else 'a rule beside it'))
+                        return
+                    if alone is None or name in skip_alone:
+                        continue
+                    a = enforce_outcome(alone, name, case['target'], case['creds'], do_raise)
+                    if all(x[0] == 'decision' or x[1] in DENIALS for x in (o, a)):
+                        ctx.count('inner_list_element_vs_alone_comparisons')
+                        if (o == ('decision', True)) != (a == ('decision', True)):
+                            ctx.violation('rule-beside-odd-list-rule-decides-differently', case,
+                                          describe(enforced=name, do_raise=do_raise, beside_the_odd_rule=list(o),
+                                                   without_the_odd_rule=list(a)))
+                            return
+                    else:
+                        ctx.unconstrained('inner-list-comparison-with-a-documented-exception')
+    finally:
+        for tree in trees:
+            tree.cleanup()
+
+
+# stratum FK: YAML policy files in which a rule NAME is not text (YAML 1.1 reads the unquoted key as something else)
+NAME_CASES = {'quick': 320, 'thorough': 8000}
+NONTEXT_KEYS = ['on', 'On', 'OFF', 'off', 'yes', 'Yes', 'no', 'NO', 'true', 'True', 'false', 'FALSE', 'null', 'Null', '~',
+                '404', '0', '-1', '+7', '0x1F', '017', '1_000', '0b11', '6:30', '1.5', '-0.0', '1.0e+3', '.inf', '-.inf', '.nan',
+                '2024-01-01', '2001-12-14t21:59:43.10-05:00', '2001-12-14 21:59:43', '!!binary aGk=', '!!float 1', '!!int "7"',
+                '!!null ""', '!!bool "yes"', '!!timestamp 2024-01-01']
+NORMAL_NAMES = ['compute:start', 'os_compute_api:servers:show', 'n.ref', 'identity:get_user', 'Ünï', 'n_2', 'volume:create']
+NAME_BODIES = {
+    'und': ['rule:ghost', 'rule:ghost or rule:adm', 'role:r and rule:nosuch', 'not rule:ghost', [['rule:ghost']],
+            [['role:r', 'rule:nosuch'], ['rule:adm']], 'rule:adm or rule:admin_or_owner'],
+    'cyc': ['rule:c1', 'rule:c1 or role:r', 'role:admin and rule:c2', [['rule:c1']], 'not rule:c2'],
+    'clean': ['role:r', 'rule:adm', 'role:r or rule:adm', '@', [['role:admin']], 'u:%(t)s', 'not role:zz'],
+}
+
+
+def gen_nontext_name_case(rnd):
+    """YAML text of a policy file with normally named rules and one to three rules whose unquoted name YAML reads as a
+    boolean, null, a number, a date, bytes; the rule texts are ordinary: clean, referencing an undefined rule, or referencing
+    a cycle (so that the load-time checks have something to report - often about an odd name AND a normal one)."""
+    import json
+    if rnd.random() < 0.6:
+        odd_kind = norm_kind = rnd.choice(['und', 'und', 'cyc'])
+    else:
+        odd_kind, norm_kind = rnd.choice(sorted(NAME_BODIES)), rnd.choice(sorted(NAME_BODIES))
+    entries = [('adm', 'role:admin', False, 'clean'),
+               ('plain', rnd.choice(['role:r', 'rule:adm or role:r', [['role:r']]]), False, 'clean')]
+    for i, name in enumerate(rnd.sample(NORMAL_NAMES, rnd.randint(1, 3))):
+        kind = norm_kind if i == 0 else rnd.choice(sorted(NAME_BODIES))
+        entries.append((name, rnd.choice(NAME_BODIES[kind]), False, kind))
+    odd_keys = rnd.sample(NONTEXT_KEYS, rnd.choice([1, 1, 1, 2, 3]))
+    for i, key in enumerate(odd_keys):
+        kind = odd_kind if i == 0 else rnd.choice(sorted(NAME_BODIES))
+        entries.append((key, rnd.choice(NAME_BODIES[kind]), True, kind))
+    if any(e[3] == 'cyc' for e in entries):
+        entries.append(('c1', 'rule:c2', False, 'member'))
+        entries.append(('c2', rnd.choice(['rule:c1', 'rule:c1 or role:r']), False, 'member'))
+    rnd.shuffle(entries)
+    where = rnd.choice(['main', 'main', 'dir'])
+    quote_all = rnd.random() < 0.3
+    texts = collections.OrderedDict([('policy.yaml', '')])
+    if where == 'dir':
+        texts['d1/extra.yaml'] = ''
+    for name, body, odd, kind in entries:
+        quoted = not odd and (quote_all or ':' in name or rnd.random() < 0.3)
+        line = '%s: %s\n' % (json.dumps(name, ensure_ascii=False) if quoted else name, json.dumps(body, ensure_ascii=False))
+        texts['d1/extra.yaml' if (odd and where == 'dir') else 'policy.yaml'] += line
+    registered = {}
+    if rnd.random() < 0.4:
+        if rnd.random() < 0.5:
+            registered['adm'] = rnd.choice(['role:admin', 'role:zz'])
+        if rnd.random() < 0.7:
+            registered['reg.only'] = rnd.choice(NAME_BODIES['und'][:4] + NAME_BODIES['clean'][:3])
+    enforce = [e[0] for e in entries if not e[2] and e[3] in ('clean', 'und')] + sorted(n for n in registered if n != 'adm') + ['n.not-there']
+    # which load-time report (undefined reference / cycle) names an odd-named rule AND a normally named one
+    flagged = lambda kinds, odd: any(e[2] == odd and e[3] in kinds for e in entries)
+    shared = [k for k, normal_kinds in (('cyc', ('cyc', 'member')), ('und', ('und',)))
+              if flagged((k,), True) and (flagged(normal_kinds, False) or
+                                          (k == 'und' and registered.get('reg.only') in NAME_BODIES['und']))]
+    creds = {'roles': rnd.choice([[], ['r'], ['admin', 'r'], ['admin']])} if rnd.random() < 0.6 else gen_creds(rnd)
+    target = {} if rnd.random() < 0.5 else {'t': rnd.choice(['x', 'r', 1, None]), 'project_id': 'p1'}
+    return dict(kind='FK', files=texts, dirs=['d1'] if where == 'dir' else [], odd_keys=odd_keys, enforce=enforce, shared=shared,
+                registered=registered, creds=creds, target=target, touch=rnd.random() < 0.4, debug=rnd.random() < 0.2)
+
+
+def check_nontext_names(ctx, real, case):
+    """A YAML policy file (main file or directory file) in which some rule NAMES are not text, beside normally named rules;
+    the normally named rules (those that reach no cycle) are enforced by name, repeatedly, also after the file was touched:
+    only the documented exceptions may leave.  No decision is demanded."""
+    import contextlib
+    import yaml
+    policy, _ = real
+    from pv.gen import files
+    ctx.case(['nontext-names', case['files'], case['registered'], case['creds'], case['target']], nontrivial=True, stratum='FK')
+    types_seen = set()
+    try:
+        for text in case['files'].values():
+            loaded = yaml.safe_load(text)
+            if text and not isinstance(loaded, dict):
+                raise ValueError('not a mapping')
+            types_seen.update(type(k).__name__ for k in (loaded or {}))
+    except Exception as e:
+        # not a policy file that a YAML reader loads: how the library reports an unreadable file is not this stratum's subject
+        ctx.unconstrained('nontext-name-file-not-loadable-' + type(e).__name__)
+        return
+    nontext = sorted(types_seen - {'str'})
+    tree = files.Tree(dirs=tuple(case['dirs']))
+    try:
+        for rel, text in case['files'].items():
+            tree.write_text(rel, text)
+        enf = policy.Enforcer(tree.conf())
+        for name in sorted(case['registered']):
+            enf.register_default(policy.RuleDefault(name, case['registered'][name]))
+        if nontext and case['shared']:
+            ctx.count('nontext_name_shared_warning_cases')
+        with (env.debug_logging() if case.get('debug') else contextlib.nullcontext()):
+            for rnd_no in range(2):
+                for name in case['enforce']:
+                    for do_raise in (False, True):
+                        o = enforce_outcome(enf, name, case['target'], case['creds'], do_raise)
+                        if nontext:
+                            ctx.count('nontext_name_enforce_calls')
+                            for t in nontext:
+                                ctx.count('nontext_name_enforce_calls.' + t)
+                        else:
+                            ctx.count('text_name_only_enforce_calls')
+                        if o[0] == 'raised' and o[1] not in DOCUMENTED:
+                            ctx.violation('undocumented-exception-' + o[1], case,
+                                          {'files': case['files'], 'name_types_in_the_files': sorted(types_seen),
+                                           'registered_defaults': case['registered'], 'enforced': name, 'do_raise': do_raise,
+                                           'round': rnd_no, 'creds': case['creds'], 'target': case['target'],
+                                           'observed': '%s: %s' % o[1:]})
+                            return
+                if rnd_no == 0 and case['touch']:
+                    tree.touch('policy.yaml')
+    finally:
+        tree.cleanup()
+
+
 def check_containers(ctx, real, case):
     """The JSON-like credentials and the target arrive in other mapping containers (read-only views, UserDict, OrderedDict,
     defaultdict, a dict subclass, ChainMap): whatever enforcement makes of them - a decision, InvalidContextObject for a
@@ -496,6 +810,10 @@ def check_case(ctx, real, case):
         return check_file_override_of_registered(ctx, real, case)
     if case['kind'] == 'O':
         return check_object_case(ctx, real, case)
+    if case['kind'] == 'FI':
+        return check_inner_list_elements(ctx, real, case)
+    if case['kind'] == 'FK':
+        return check_nontext_names(ctx, real, case)
     ctx.case([case['rules'], case['target'], case['creds']], nontrivial=True, stratum=case['kind'])
     ctx.count('hostile_leaves', case.get('hostile', 1))
     try:
@@ -904,6 +1222,16 @@ def run(ctx):
         if i == 0:
             ctx.sample({'rules': case['rules'], 'target': case['target'], 'creds': case['creds'], 'registered': case['registered'],
                         'routes': case['routes']}, 'O')
+    # strata FI / FK (odd shapes inside list rules of policy files; rule names that are not text), with their own streams
+    ctx.stratum('file-shapes', exhaustive=False)
+    for tag, total, gen in (('FI', INNER_CASES, gen_inner_list_case), ('FK', NAME_CASES, gen_nontext_name_case)):
+        for i in range(total[ctx.tier] // ctx.nshards + 1):
+            if (i & 0xf) == 0 and ctx.expired():
+                break
+            case = gen(ctx.sub_rnd(tag, ctx.tier, ctx.shard, ctx.nshards, i))
+            check_case(ctx, (policy, enf), case)
+            if i == 0:
+                ctx.sample(case, tag)
     n = N[ctx.tier] // ctx.nshards + 1
     for i in range(n):
         if (i & 0xff) == 0 and ctx.expired():
